@@ -22,7 +22,7 @@ JOBS = {'quick': 4, 'thorough': 16}
 REQUIRED_MONITORS = ('output_vs_truth', 'map_call_log', 'early_extrapolation_refused', 'em_shape_contract')
 REQUIRED_CLASSES = ('species:unmapped-interleaved', 'solvent', 'box:triclinic', 'box:rect', 'ref:1-atom', 'ref:2-atoms',
                     'ref:general', 'multi-residue', 'order:random', 'order:blocks', 'order:alternating', 'shipped-bmim-bf4',
-                    'early:no-maps', 'early:no-end-molecules', 'early:partial-maps', 'residue-numbers:gaps-inside-a-mapped-multi-residue-molecule')
+                    'early:no-maps', 'early:no-end-molecules', 'early:partial-maps', 'residue-numbers:gaps-inside-a-mapped-multi-residue-molecule', 'output-atoms:>=100000')
 RULE = ('generated systems: 2-4 species (1-, 2-, many-bead; single and multi-residue) + solvent, 1..60 instances each in '
         'random/blocked/alternating order, a random non-empty subset of species given an end molecule, rectangular and '
         'triclinic boxes, s in {0.3,0.5,1,1.5}; plus the shipped BMIM/BF4 box. Non-trivial: at least two mapped species or a '
@@ -64,6 +64,8 @@ def cases(ctx):
     for i in range(n):
         yield {'kind': 'gen', 'i': i}
     yield {'kind': 'shipped'}
+    for k, total in enumerate([100000] if ctx.tier == 'quick' else [99999, 100000, 100001, 100002, 123456, 200003]):
+        yield {'kind': 'gen', 'i': 100000 + k, 'big': total}
 
 
 def split_molecules(records, sizes_in_order):
@@ -171,11 +173,23 @@ def run_gen(ctx, case):
     hint = None
     if i % 5 == 0:
         hint = [[1], [2], [int(rng.integers(3, 8))]]            # a 1-bead, a 2-bead and a many-bead species
-    w = world.make_world(rng, root, nspecies=3 if hint else None, ninst=(1, 20 if ctx.tier == 'quick' else 60),
-                         order=order, box_kind=box_kind, with_vel=bool(rng.random() < 0.3), sizes_hint=hint,
-                         end_for=None if not hint else None, resid_mode='gaps' if i % 3 == 1 else 'consecutive',
-                         multi_res_prob=0.6 if i % 3 == 1 else 0.35)
-    if i % 3 == 1:
+    big = case.get('big')
+    if big:
+        # an output of `big` atoms (around the point where the atom count no longer fits five figures): two species of
+        # 36 and 35 target atoms, x and y instances with 36 x + 35 y = big
+        x = big % 35
+        x += 35 * ((big // 71 - x) // 35)
+        y = (big - 36 * x) // 35
+        assert 36 * x + 35 * y == big and x > 0 and y > 0
+        w = world.make_world(rng, root, nspecies=2, sizes_hint=[[6], [5]], end_extra=30, end_for=['SPA', 'SPB'],
+                             counts={'SPA': x, 'SPB': y, 'W': 40}, order=order, box_kind=box_kind, with_vel=False)
+        ctx.hit('output-atoms:>=100000' if big >= 100000 else 'output-atoms:99999')
+    else:
+        w = world.make_world(rng, root, nspecies=3 if hint else None, ninst=(1, 20 if ctx.tier == 'quick' else 60),
+                             order=order, box_kind=box_kind, with_vel=bool(rng.random() < 0.3), sizes_hint=hint,
+                             end_for=None if not hint else None, resid_mode='gaps' if i % 3 == 1 else 'consecutive',
+                             multi_res_prob=0.6 if i % 3 == 1 else 0.35)
+    if i % 3 == 1 and not big:
         ctx.hit('residue-numbers:gaps-and-restarts')
         if any(len(w['species'][n]['sizes']) > 1 for n in w['end_for']):
             ctx.hit('residue-numbers:gaps-inside-a-mapped-multi-residue-molecule')
